@@ -879,7 +879,7 @@ func (e *sfEngine) setup(t *testing.T, su sfSetup) {
 	h.App.SuperfluidKeeper.SetParams(ctx, sftypes.Params{MinimumRiskFactor: rfDec})
 	o.Count("rf." + rfDec.String())
 	for i := 0; i < su.nv; i++ {
-		e.vals = append(e.vals, h.SetupValidator(stakingtypes.Bonded))
+		e.vals = append(e.vals, setupValidatorDet(h, fmt.Sprintf("verif-sf-validator-%d", e.r.Int63()), stakingtypes.Bonded))
 		// SetupValidator flips the status to Bonded without moving the self-bond out of the not-bonded pool
 		// (the staking EndBlocker would do that); a slash burns from the bonded pool, so move it here
 		val, err := h.App.StakingKeeper.GetValidator(ctx, e.vals[i])
